@@ -13,6 +13,7 @@ import (
 	"github.com/biogo/hts/sam"
 	"pgregory.net/rapid"
 
+	"verif/internal/bz"
 	"verif/internal/h"
 )
 
@@ -217,17 +218,19 @@ func run(c Case, rec *h.Rec) {
 		streams = append(streams, buf.Bytes())
 	}
 	// optional fault: truncate one input in the middle of its data
-	failing := -1
+	failing, failRec := -1, -1
 	if c.FailAt >= 0 {
 		fi := c.FailAt % len(c.Inputs)
 		if n := len(c.Inputs[fi].Recs); n > 0 {
-			// cut the compressed stream so that record FailRec%n cannot be read completely:
-			// rebuild the input uncompressed-in-one-block, then truncate the BGZF stream inside its last data block
-			s := streams[fi]
-			cut := len(s) - 28 - 6 // inside the trailer of the last data block (CRC/ISIZE) => that whole block fails
-			if cut > 0 {
-				streams[fi] = s[:cut]
+			// re-block the input with one BGZF member per record (the header in its own
+			// member), then cut the stream inside the member of record FailRec%n: the
+			// records before it are readable, that one is not. FailRec%n==0 damages the
+			// first record (seen by NewMerger), larger values fail in the middle of the merge.
+			k := c.FailRec % n
+			if re, cut, ok := reblockAndCut(streams[fi], k); ok {
+				streams[fi] = re[:cut]
 				failing = fi
+				failRec = k
 			}
 		}
 	}
@@ -252,6 +255,8 @@ func run(c Case, rec *h.Rec) {
 	rec.Class(c.Order)
 	rec.ClassIf(empty, "has_empty_input")
 	rec.ClassIf(failing >= 0, "failing_input")
+	rec.ClassIf(failRec > 0, "failing_mid_stream")
+	rec.ClassIf(failRec > 0 && len(c.Inputs) == 1, "failing_mid_stream_single_input")
 	rec.ClassIf(nameOrderDiffers, "name_order_differs_from_header_order")
 	rec.NTIf((len(c.Inputs) >= 2 && stats.interleaved) || failing >= 0)
 }
@@ -379,7 +384,7 @@ func mergeAndCheck(c Case, streams [][]byte, failing int, want map[struct{ in, o
 	}
 	if failing >= 0 {
 		if !gotErr {
-			return fmt.Sprintf("input %d is truncated inside its last data block, yet the merger ended with io.EOF after %d records and never reported an error", failing, n)
+			return fmt.Sprintf("input %d is truncated inside one of its data blocks, yet the merger ended with io.EOF after %d records and never reported an error", failing, n)
 		}
 		return ""
 	}
@@ -426,4 +431,32 @@ func toInt(v interface{}) int64 {
 
 func TestProp(t *testing.T) {
 	h.Main(t, "C18", h.Rapid("merge", h.Opt{Quick: 6000, Thorough: 150000, Isolate: true}, draw, run))
+}
+
+// reblockAndCut rewrites a BAM stream with one BGZF member per record and
+// returns it with an offset inside the member holding record k (its trailer).
+func reblockAndCut(stream []byte, k int) ([]byte, int, bool) {
+	flat, err := bz.GunzipAll(stream)
+	if err != nil || len(flat) < 12 {
+		return nil, 0, false
+	}
+	le := func(o int) int { return int(uint32(flat[o]) | uint32(flat[o+1])<<8 | uint32(flat[o+2])<<16 | uint32(flat[o+3])<<24) }
+	o := 8 + le(4)
+	nref := le(o)
+	o += 4
+	for i := 0; i < nref; i++ {
+		o += 4 + le(o) + 4
+	}
+	payloads := [][]byte{flat[:o]}
+	for o < len(flat) {
+		n := 4 + le(o)
+		payloads = append(payloads, flat[o:o+n])
+		o += n
+	}
+	if k+1 >= len(payloads) {
+		return nil, 0, false
+	}
+	f := bz.BuildFile(payloads, 1, true)
+	m := f.Members[k+1]
+	return f.Bytes, int(m.Base) + m.Size - 6, true
 }
